@@ -98,6 +98,7 @@ func propC04(w *World, r *Run) {
 	ruleNoManualEncoding(w, r, "C04.l")
 	ruleSoleWriter(w, r, "C04.m")
 	ruleNoAppendOntoSharedPrefix(w, r, "C04.n")
+	ruleStoredReopenable(w, r, a, "C04.o") // what is handed out as accepted opens again under the witness's own reader (101 signature lines do not)
 }
 
 func propC07(w *World, r *Run) {
@@ -122,6 +123,8 @@ func propC07(w *World, r *Run) {
 	ruleNotFoundOnlyFromStores(w, r, "C07.m")
 	ruleNoHiddenVerdictState(w, r, a, "C07.l")
 	ruleImmut(w, r, "C07.l", immutCoreFields(w, r, "C07.l", "Witness"))
+	ruleCompareAndSet(w, r, "C07.n") // a lost write conflict is a storage failure answered as success
+	ruleComposedInMemory(w, r, "C07.n")
 }
 
 func propC08(w *World, r *Run) {
@@ -146,6 +149,7 @@ func propC08(w *World, r *Run) {
 	ruleContentLengthUnknownIsNotEmpty(w, r, "C08.k")
 	ruleAdapter(w, r, "C08.l")
 	ruleLockset(w, r, "C08.m")
+	ruleHasherAlwaysSet(w, r, "C08.n")
 }
 
 func propC09(w *World, r *Run) {
@@ -318,6 +322,7 @@ func propC15(w *World, r *Run) {
 	ruleNoDerefOfFailedResult(w, r, "C15.g", fnDistOnce)
 	ruleAdapter(w, r, "C15.h")
 	ruleDistributorLoop(w, r, "C15.i", "C15.j")
+	ruleAnsweredBodyClosed(w, r, "C15.k")
 }
 
 func propC16(w *World, r *Run) {
@@ -388,6 +393,7 @@ func propC14(w *World, r *Run) {
 	ruleSharedHandlesNotMutated(w, r, "C14.j")
 	ruleFetchersKeepNoState(w, r, "C14.k")
 	ruleCapsAndTimeouts(w, r, "C14.l", "C14.l")
+	ruleAdapter(w, r, "C14.m") // the adapter's answer for "nothing stored" is the one the feeder's first-use path tests for
 }
 
 func init() {
